@@ -18,6 +18,11 @@ def andU (a b : Nat) : Nat := a &&& b
 def addU (a b : Nat) : Nat := (a + b) % 2 ^ 64
 def subU (a b : Nat) : Nat := ofI ((a : Int) - (b : Int))
 def mulU (a b : Nat) : Nat := (a * b) % 2 ^ 64
+def divU (a b : Nat) : Nat := a / b
+def modU (a b : Nat) : Nat := a % b
+/-- `uint64(buff[k])` for a byte slice given as the list of its byte values (0 when out of range:
+    Go panics there; the checked model `getBitsU?` covers that case separately). -/
+def idx (buff : List Nat) (k : Nat) : Nat := (buff[k]?).getD 0
 def addI (a b : Int) : Int := wrapI (a + b)
 def subI (a b : Int) : Int := wrapI (a - b)
 def mulI (a b : Int) : Int := wrapI (a * b)
